@@ -426,7 +426,12 @@ def r5_flush_complete(run, w):
   fl = nodes_calling_E(au, lambda c, nm, f: endswith(nm, "out_actions.flush_calc_changes"))
   recalc = nodes_calling_E(au, lambda c, nm, f: nm in ("self._bring_all_up_to_date",
                                                     "self.docmodel.apply_auto_removes"))
-  rets = {n.id for n in cfg.nodes if n.kind == "return"} | {cfg.exit.id}
+  # only what happens on a path to the normal return matters: a recalculation (or a flush) inside
+  # a failure handler that ends in `raise` emits nothing to the caller
+  def returns_normally(k):
+    return cfg.exit.id in cfg.reach_after({k})
+  fl = {k for k in fl if returns_normally(k)}
+  recalc = {k for k in recalc if returns_normally(k)}
   ok = bool(fl) and bool(recalc) and all(cfg.postdominated_by(r, fl) for r in recalc) and \
       not (cfg.reach_after(fl) & recalc)
   run.ob(R5, au.qualname, "flush_calc_changes() after the last _bring_all_up_to_date / auto-removes",
